@@ -38,10 +38,10 @@ ASSUMPTIONS = [
 MIN = {
     "quick": {"same_operation_same_result": 60, "multi_gene_equals_single": 20, "failing_gene_isolated": 8,
               "database_untouched": 150, "evidence_untouched": 80, "hash_seed_independent": 10,
-              "minor_candidate_isolated": 20},
-    "thorough": {"same_operation_same_result": 1500, "multi_gene_equals_single": 500, "failing_gene_isolated": 200,
-                 "database_untouched": 4000, "evidence_untouched": 3000, "hash_seed_independent": 60,
-                 "minor_candidate_isolated": 600},
+              "minor_candidate_isolated": 20, "minor_repeat_same": 8},
+    "thorough": {"same_operation_same_result": 800, "multi_gene_equals_single": 250, "failing_gene_isolated": 100,
+                 "database_untouched": 1800, "evidence_untouched": 800, "hash_seed_independent": 40,
+                 "minor_candidate_isolated": 300, "minor_repeat_same": 60},
 }
 CASE_TIMEOUT = {"quick": 900, "thorough": 3000}
 TOTAL_TIMEOUT = {"quick": 1800, "thorough": 7200}
